@@ -1,4 +1,6 @@
 import CentrifugeVerif.Proofs.WSMask
+import CentrifugeVerif.Proofs.WSHeader
+import CentrifugeVerif.Proofs.WSTrunc
 /-!
 # C30 — WebSocket messages round-trip through writer and reader
 -/
@@ -44,5 +46,76 @@ theorem maskWordsGo_eq (k : Key) (pos align : Nat) (b : Bytes) :
       exact xorMask_congr k (by omega) _
     · simp only [List.length_drop] at hnwl ⊢
       omega
+
+/-- The header `flushFrame` writes parses back to the same FIN, RSV1, opcode, mask bit and payload
+length, with RSV2 = RSV3 = 0, for every opcode, every length below 2^63 (7-, 16- and 64-bit forms)
+and whatever follows it on the wire. -/
+theorem header_roundtrip (final rsv1 masked : Bool) (op : Nat) (hop : op < 16) (len : Nat)
+    (hlen : len < 2 ^ 63) (rest : Bytes) :
+    ∃ b0 b1 ext, encHeader (firstByte final rsv1 op) masked len = b0 :: b1 :: ext ∧
+      (parseHdr b0 b1).fin = final ∧ (parseHdr b0 b1).rsv1 = rsv1 ∧ (parseHdr b0 b1).rsv2 = false ∧
+      (parseHdr b0 b1).rsv3 = false ∧ (parseHdr b0 b1).opcode = op ∧ (parseHdr b0 b1).masked = masked ∧
+      Spec.extLen (parseHdr b0 b1).len7 (ext ++ rest) = some (len, rest) := by
+  have hb0 := fun b1 => parse_firstByte final rsv1 ⟨op, hop⟩ b1
+  simp only at hb0
+  unfold encHeader
+  simp only []
+  split
+  · -- 64-bit form
+    rename_i h
+    have hm := parse_len7 masked ⟨127, by omega⟩ (firstByte final rsv1 op)
+    simp only at hm
+    refine ⟨_, _, toBE 8 len, rfl, (hb0 _).1, (hb0 _).2.1, (hb0 _).2.2.1, (hb0 _).2.2.2.1, (hb0 _).2.2.2.2,
+      hm.1, ?_⟩
+    rw [show (127 : UInt8) = UInt8.ofNat 127 from rfl, hm.2]
+    have hl : (toBE 8 len).length = 8 := toBE_length 8 len
+    simp only [Spec.extLen]
+    simp [hl, List.take_append_of_le_length, List.drop_append_of_le_length,
+      beVal_toBE8 len (by omega)]
+  · split
+    · -- 16-bit form
+      rename_i h1 h2
+      have hm := parse_len7 masked ⟨126, by omega⟩ (firstByte final rsv1 op)
+      simp only at hm
+      refine ⟨_, _, toBE 2 len, rfl, (hb0 _).1, (hb0 _).2.1, (hb0 _).2.2.1, (hb0 _).2.2.2.1, (hb0 _).2.2.2.2,
+        hm.1, ?_⟩
+      rw [show (126 : UInt8) = UInt8.ofNat 126 from rfl, hm.2]
+      have hl : (toBE 2 len).length = 2 := toBE_length 2 len
+      simp only [Spec.extLen]
+      simp [hl, List.take_append_of_le_length, List.drop_append_of_le_length,
+        beVal_toBE2 len (by omega)]
+    · rename_i h1 h2
+      have hm := parse_len7 masked ⟨len, by omega⟩ (firstByte final rsv1 op)
+      simp only at hm
+      refine ⟨_, _, [], rfl, (hb0 _).1, (hb0 _).2.1, (hb0 _).2.2.1, (hb0 _).2.2.2.1, (hb0 _).2.2.2.2,
+        hm.1, ?_⟩
+      rw [hm.2]
+      have : len < 126 := by omega
+      simp [Spec.extLen, this]
+
+/-- `truncWriter`: however the compressed stream is cut into `Write` calls (empty ones included),
+the bytes passed on to the message writer are the stream without its last four bytes, and those
+four bytes are what `flateWriteWrapper.Close` compares with `00 00 ff ff`. -/
+theorem truncWriter_drops_last4 (chunks : List Bytes) (d tail : Bytes)
+    (h : chunks.flatten = d ++ tail) (ht : tail.length = 4) :
+    (twWrites {} chunks).2.flatten = d ∧ (twWrites {} chunks).1.held = tail := by
+  have hs := twWrites_spec chunks {} (by simp)
+  simp only [List.length_nil, List.nil_append, Nat.zero_add] at hs
+  rw [h] at hs
+  have hl : (twWrites {} chunks).1.held.length = tail.length := by
+    rw [hs.2, ht]; simp only [List.length_append]; omega
+  exact List.append_inj' hs.1 hl
+
+/-- shorter streams are kept back entirely -/
+theorem truncWriter_short (chunks : List Bytes) (h : chunks.flatten.length ≤ 4) :
+    (twWrites {} chunks).2.flatten = [] ∧ (twWrites {} chunks).1.held = chunks.flatten := by
+  have hs := twWrites_spec chunks {} (by simp)
+  simp only [List.length_nil, List.nil_append, Nat.zero_add] at hs
+  have hl : (twWrites {} chunks).1.held.length = chunks.flatten.length := by rw [hs.2]; omega
+  have := List.append_inj' (s₁ := (twWrites {} chunks).2.flatten) (s₂ := []) (by simpa using hs.1) hl
+  exact this
+
+example : (twWrites {} [[1, 2], [], [3, 4, 5, 6, 7, 8, 9], [10]]).2.flatten = [1, 2, 3, 4, 5, 6] ∧
+    (twWrites {} [[1, 2], [], [3, 4, 5, 6, 7, 8, 9], [10]]).1.held = [7, 8, 9, 10] := by decide
 
 end CentrifugeVerif.WS
